@@ -35,7 +35,8 @@ def check(run, tier):
     edges = E.emit_edges(run, "MC_C03", "MenuC03", 2 if quick else 3, 2, pols="PolsC03")
     traces = E.replay_edges(run, edges, pols=mpols)
     n, m = (64, 50) if quick else (480, 80)
-    idents = [("alice", None), ("bob", None), ("bob", ["gA"]), ("carol", ["gA", "gB"]), ("carol", []), ("dave", ["gC"])]
+    idents = [("alice", None), ("bob", None), ("bob", ["gA"]), ("carol", ["gA", "gB"]), ("carol", []), ("dave", ["gC"]),
+              ("erin", [""]), ("erin", ["", "gB"])]
     allp = D.builtin_policies() + G.extra_policies()
     w = {"Get": 4, "GetAttributes": 4, "GetAttributeList": 2, "Locate": 4, "Activate": 2, "Revoke": 2, "Destroy": 2,
          "Attr": 3, "Encrypt": 1, "MAC": 1, "DeriveKey": 1.5, "Create": 3, "Register": 3, "CreateKeyPair": 0.7}
@@ -48,6 +49,8 @@ def check(run, tier):
     alike = [(long_ + "-A", None), (long_ + "-B", None), (long_ + "-B", ["gA"]), ("Alice", None), ("alice", None), ("alice ", None)]
     traces += E.random_histories(run, 24 if quick else 160, m, common.SEED + 7, pols=allp, prefix="alike", genkw={
         "weights": w, "idents": alike, "policies": ["default", "default", "grouped", "partial", "open"]})
+    # text that is the identifier of no object although a lenient store would read it as one ('01', ' 1', '1.0' ...)
+    traces += E.alias_identifier_traces(quick, prefix="c03alias")
     E.judge(run, traces, only=ONLY, name="c03")
     E.summarise(run, traces)
     denial_probe(run, allp, quick)
@@ -128,7 +131,8 @@ def denial_probe(run, pols, quick):
         snap = drv.db + ".probe"
         drv.snapshot(snap)
         ghost = 900000
-        idents = [("bob", None), ("carol", ["gA"]), ("carol", ["gB"]), ("carol", []), ("carol", ["gA", "gB"])]
+        idents = [("bob", None), ("carol", ["gA"]), ("carol", ["gB"]), ("carol", []), ("carol", ["gA", "gB"]), ("carol", [""]),
+                  ("carol", ["", "gB"])]
         vers = [(1, 2)] if quick else [(1, 0), (1, 2), (1, 4), (2, 0)]
         ncase = 0
         for ver in vers:
